@@ -17,7 +17,7 @@ from ..lib import (build_dataset, build_scheme, build_alg, call, canon_ranking, 
 from ..simfs import SimFS
 from ..solverpeer import FaultySolverFactory
 from ..seed import digest
-from .common import Discard
+from .common import Discard, apply_mutation
 
 ID = "C15"
 ENVS = ["absent", "present", "broken", "absent"]
@@ -58,7 +58,10 @@ def gen_case(st, tier, env):
                 heavy_left -= 1
             ops.append({"op": "run", "alg": a, "one": w.choice([True, False, None]),
                         "sched": gen.gen_sched(st.schedule)})
-        elif r < 0.65:
+        elif r < 0.5:
+            # the user edits the shared dataset in place; the fresh-copy world replays the same edits on its copies
+            ops.append({"op": "mutate", "mutation": gen.gen_mutation(w), "ds": int(w.random() < 0.25)})
+        elif r < 0.68:
             ops.append({"op": "read", "target": w.randrange(64),
                         "what": w.choice(["kemeny_score", "description", "str", "features", "consistent_with",
                                           "kemeny_factory"])})
@@ -131,6 +134,7 @@ class World:
         self.dss = [build_dataset(d) for d in self.dspecs] if shared else None
         self.scs = [build_scheme(x) for x in self.sspecs] if shared else None
         self.algs = {}
+        self.mutations = [[], []]  # in-place edits applied so far to dataset 0 / 1 (replayed on fresh copies)
         self.consensuses = []  # results of "run" ops that returned, in order
 
     @property
@@ -142,7 +146,12 @@ class World:
         return self.scs[0]
 
     def dataset(self, which=0):
-        return self.dss[which] if self.shared else build_dataset(self.dspecs[which])
+        if self.shared:
+            return self.dss[which]
+        d = build_dataset(self.dspecs[which])
+        for mut in self.mutations[which]:
+            apply_mutation(d, mut)
+        return d
 
     def scheme(self, which=0):
         return self.scs[which] if self.shared else build_scheme(self.sspecs[which])
@@ -167,6 +176,12 @@ def _do(world, op, draws_spec, univ, univ2=()):
         ds, sc = world.dataset(wd), world.scheme(wsc)
         if wd:
             univ = univ2
+        if kind == "mutate":
+            if world.shared:
+                apply_mutation(ds, op["mutation"])
+            world.mutations[wd].append(op["mutation"])
+            d_now = world.dataset(wd)
+            return "returned", _canon_result(d_now), [], None
         if kind == "run":
             okb, alg = call(world.alg, op["alg"])
             if not okb:
@@ -269,7 +284,8 @@ def run_case(case, ctx):
     try:
         for i, op in enumerate(case["ops"]):
             kind = op["op"]
-            label = alg_label(op["alg"]) if kind == "run" else (kind + (":" + op["what"] if kind == "read" else ""))
+            label = alg_label(op["alg"]) if kind == "run" else (kind + (":" + op["what"] if kind == "read" else "") +
+                                                                  (":" + op["mutation"]["mutate"] if kind == "mutate" else ""))
             repro = dict(case, ops=case["ops"][:i + 1])
             # ---- shared world (solver fault armed) ------------------------------------------------------------
             fired0 = factory.fired
@@ -297,6 +313,14 @@ def run_case(case, ctx):
                 if k1 != "returned" or k2 != "returned":
                     # keep the two lists aligned: a read only makes sense when both worlds have the object
                     shared.consensuses[-1] = fresh.consensuses[-1] = None
+            if kind == "mutate":
+                snap0_ds, snap0_sc = snap_all()
+                wd_m = op.get("ds", 0)
+                for lst in (shared.consensuses, fresh.consensuses):
+                    for j, c0 in enumerate(lst):
+                        if c0 is not None and c0[1] == wd_m:
+                            lst[j] = None
+                ctx.probe("user_mutations")
             ctx.event(kind, label, k1, picks, "fault" if aborted_by_fault else "")
             ctx.state([prev_kind, kind])
             prev_kind = kind
